@@ -4,14 +4,27 @@ from vcommon import *
 import vrt_runner
 
 PID = "C16"
-PROP_V = "Props/Properties_C16.v"
-GEN_MODULES = ["Emit", "Sites"]
-FLOW_FILES = ['debug.c']
+PROP_V = ["Props/Properties_C16.v", "Props/Properties_C16a.v", "Props/Properties_C16c.v"]
+GEN_MODULES = ["Emit", "Sites", "Consts"]
+FLOW_FILES = ['debug.c', 'common.c', 'mu.c']
 REPLAY_HINT = ("(a) VRT_SEED=<seed> VRT_DEBUGGER=1 VRT_RACE=0 _work/h/mu_mix   (b) _work/c16/drv prints "
                "'<fn> <state> <n> <ret==buf> <hex text> <hex of buf[-8..n+8)> <text unchanged during the call>' per case")
-PARTIAL = ["C16(a) is decided by the write-monitor oracle over sampled schedules and by the MuModel tie; a Coq theorem that the "
-           "debug functions preserve the mutex invariant is not stated (the mutex variant was refuted by finding F2 before its repair)"]
-
+PARTIAL = ["C16(a), mutex half, is PROVED (Properties_C16a over Model/MuDbgModel.v, a wrapper that steps MuModel unchanged and adds any number of debugger "
+           "threads running nsync_mu_debug_state / _and_waiters / nsync_mu_debugger one atomic site at a time, values and loop guards from Gen/Sites.v): a debugger "
+           "step changes no holder, queue, waiting flag or semaphore and no bit of the word but MU_SPINLOCK (C16a_holders); exclusion and word_agrees hold in every "
+           "reachable combined world (C16a_exclusion); spinlock discipline and owner exclusion (C16a_spinlock_discipline, C16a_owner_excludes); no debugger pc is a "
+           "semaphore wait and an owner releases within 2*records+3 own steps (C16a_never_blocks family); NO LOST HAND-OFF with debuggers present: MuProof3's HInv "
+           "lifted to the combined system (C16a_no_lost_handoff, C16a_last_holder_must_scan, C16a_spinlock_owner_live: whoever owns the spin bit is enabled); the "
+           "F2 regression as a theorem about the OLD code shape (C16a_stale_store_refuted: with the plain store of the stale word two lockers hold W).  Same "
+           "partiality as C02b (the reader half says 'held in either mode'); condition-free MuModel",
+           "C16(a), cv half (Properties_C16c over Model/CvDbgModel.v): the debugger changes only CV_SPINLOCK, the plain release store of the word returned at "
+           "acquisition is exact (every other write of cv->word happens under the spinlock), owner exclusion, never blocks, CvProof.AInv of the base world whenever "
+           "no debugger owns; NOT proved: CvProof2-7 (no lost cv wake-up) over the combined system -- that part stays with the write-monitor / stuck oracles",
+           "the unlocked walk of nsync_mu_debugger / nsync_cv_debugger ('unsafe, for interactive debuggers') is modelled as read-only steps; emit_waiters applies "
+           "DLL_WAITER to nsync_wait_n records that are not embedded in a waiter struct and so READS outside the record (DESIGN 9.2, observed, not raised: the "
+           "property speaks of writes and of the buffer)"]
+TRUSTED_BASE = ["Model/MuDbgModel.v / Model/CvDbgModel.v debugger skeletons (hand-written; the take-the-spinlock branch condition of debug.c:202-203 / 245-246 is "
+                "restated), validated by lock-step replay of mu_mix / cv_mix with a debugger thread (replay/mudbg_replay.ml, replay/cvdbg_replay.ml)"]
 
 def build_driver():
     d = os.path.join(WORK, "c16")
@@ -124,6 +137,11 @@ def run(tier, seed):
     # store-through-buffer check (syntactic): recorded by gen/regen.py
     if "EmitOnlyWriter" in st and not st["EmitOnlyWriter"].get("ok"):
         res["broken"].append({"what": "debug.c stores through a char pointer outside emit_c", "detail": st["EmitOnlyWriter"]["errors"]})
+    # (a) lock-step tie of the debugger-participant models
+    import mu_common
+    tie = mu_common.tie(res, "mudbg_replay", "MuDbgModel", [("mu_mix", {"VRT_DEBUGGER": 1, "VRT_RACE": 0}, 300, 3000),
+                                                             ("mu_mix", {"VRT_DEBUGGER": 2, "VRT_RACE": 0}, 200, 2000)], tier, seed)
+    tie2 = mu_common.tie(res, "cvdbg_replay", "CvDbgModel", [("cv_mix", {"VRT_MODE": m, "VRT_DEBUGGER": 1, "VRT_RACE": 0}, 100, 1000) for m in (0, 1, 2, 3)], tier, seed)
     # (a) transparency under concurrency: lockers + debug caller under the deterministic scheduler
     na = 0
     agg = {}
@@ -158,4 +176,8 @@ def run(tier, seed):
                                "(a) schedules of lockers + a debug-state caller under the vrt scheduler; counted = debug calls executed",
                        "buffer_cases": nb, "buffer_cases_state_changed_during_call": unstable, "schedules": na, "traces_validated_against_impl": diffs, "sched_stats": agg,
                        "samples": [{"n": c[0], "text": bytes(c[1]).decode("latin1"), "buf": bytes(c[2]).hex()} for c in cases[31:33]]}
+    res["coverage"]["traces_validated_against_impl"] = diffs + tie.get("traces_validated_against_impl", 0) + tie2.get("traces_validated_against_impl", 0)
+    res["coverage"]["lockstep_model_steps"] = tie.get("lockstep_model_steps", 0) + tie2.get("lockstep_model_steps", 0)
+    res["coverage"]["model_sites_hit"] = tie.get("model_sites_hit", {})
+    res["coverage"]["model_sites_hit_cv"] = tie2.get("model_sites_hit", {})
     return res
